@@ -201,10 +201,12 @@ class ArmV6:
     def current_cond(self):
         if self.registers.current_instr_set() == InstrSet.ARM:
             return substring(self.opcode, 31, 28)
-        if self.opcode_len == 16 and substring(self.opcode, 15, 12) == 0b1101:
+        if self.opcode_len == 16 and substring(self.opcode, 15, 12) == 0b1101 and \
+                substring(self.opcode, 11, 9) != 0b111:
             return substring(self.opcode, 11, 8)
         if self.opcode_len == 32 and substring(self.opcode, 31, 27) == 0b11110 and \
-                substring(self.opcode, 15, 14) == 0b10 and not bit_at(self.opcode, 12):
+                substring(self.opcode, 15, 14) == 0b10 and not bit_at(self.opcode, 12) and \
+                substring(self.opcode, 25, 23) != 0b111:
             return substring(self.opcode, 25, 22)
         if substring(self.registers.cpsr.it, 3, 0) != 0b0000:
             return substring(self.registers.cpsr.it, 7, 4)
